@@ -188,8 +188,20 @@ pub fn emit_de(out: &mut impl Write, vi: usize, hr: bool, ev: &Ev) {
             match r { Ok(h) => format!("ok:{}", hash_bin(&h, bin_len)), Err(_) => "err".to_string() }
         });
         let head = format!("de {} {} {}", vi, hr as u8, ev_str(ev));
+        // direct oracle (C16): deserialisation accepts exactly what the matching parser of THIS build accepts,
+        // with the same value — the text parser (prefix auto-detected) for human-readable formats, the
+        // slice parser for compact ones; every other event is an error
+        let expect: String = {
+            let text: Option<&[u8]> = match ev { Ev::Str(s) | Ev::BorrowedStr(s) | Ev::StringOwned(s) => Some(s.as_bytes()), _ => None };
+            let bytes: Option<&[u8]> = match ev { Ev::Bytes(b) | Ev::BorrowedBytes(b) | Ev::ByteBuf(b) => Some(b.as_slice()), _ => None };
+            let parsed: Option<Result<T, tlsh::ParseError>> = if hr { text.or(bytes).map(|t| T::from_str_bytes(t, None)) } else { bytes.map(|b| T::try_from(b)) };
+            match parsed { Some(Ok(h)) => format!("ok:{}", hash_bin(&h, bin_len)), _ => "err".to_string() }
+        };
         match r {
-            Ok(s) => writeln!(out, "{} => {}", head, s).unwrap(),
+            Ok(s) => {
+                writeln!(out, "{} => {}", head, s).unwrap();
+                if s != expect { writeln!(out, "ORACLE C16 deserialize-differs-from-the-matching-parser expected={} {}", &expect[..expect.len().min(40)], head).unwrap(); }
+            }
             Err(()) => {
                 writeln!(out, "{} => panic", head).unwrap();
                 writeln!(out, "ORACLE C16 deserialize-panicked {}", head).unwrap();
@@ -207,6 +219,10 @@ pub fn emit_ser(out: &mut impl Write, vi: usize, bin: &[u8]) {
             let r = serde::Serialize::serialize(&h, RecSer { hr });
             let s = match r { Ok(s) => s, Err(e) => format!("err:{}", e) };
             writeln!(out, "ser {} {} {} => {}", vi, hr as u8, hex(bin), s).unwrap();
+            // direct oracle (C16): exactly the "T1" text / exactly the stored bytes
+            let expect = if hr { format!("str:{}", hex(h.to_string().as_bytes())) } else {
+                let mut raw = vec![0u8; bin_len]; h.store_into_bytes(&mut raw).unwrap(); format!("bytes:{}", hex(&raw)) };
+            if s != expect { writeln!(out, "ORACLE C16 serialize-is-not-the-canonical-form ser {} {} {}", vi, hr as u8, hex(bin)).unwrap(); }
         }
         // real formats (direct oracles)
         let r = guarded(|| {
